@@ -16,6 +16,6 @@ if (cd "$WT" && go test -mod=mod -vet=off -count=1 ./... >/tmp/tryseed-$$.log 2>
 rm -f /tmp/tryseed-$$.log
 cd /verif
 ARGS="--tier $TIER"; [ "$N" != 0 ] && ARGS="$ARGS --episodes $N"
-VERIF_REPO="$WT" GOTOOLCHAIN=local ./bin/verif check "$PROP" $ARGS 2>&1 | grep -v "^   \|^  verif\|^  github\|^  testing\|^  runtime\|^$" | grep "VIOLATION\|  class\|OK prop\|exit 2\|INFRA\|NONDET\|episodes in\|KNOWN" | cut -c1-600
+VERIF_REPO="$WT" GOTOOLCHAIN=local ${VERIF_BIN:-./bin/verif} check "$PROP" $ARGS 2>&1 | grep -v "^   \|^  verif\|^  github\|^  testing\|^  runtime\|^$" | grep "VIOLATION\|  class\|OK prop\|exit 2\|INFRA\|NONDET\|episodes in\|KNOWN" | cut -c1-600
 echo "check exit: ${PIPESTATUS[0]}"
 find /verif/build -name "*alt-*" -mmin +120 -delete 2>/dev/null
